@@ -613,8 +613,26 @@ def inline_call(ex, st, fi, args, kwargs, cx, node, k):
     return res
 
 
+class _Rename(ast.NodeTransformer):
+    def __init__(self, mp):
+        self.mp = mp
+
+    def visit_Name(self, node):
+        if node.id in self.mp:
+            return ast.copy_location(ast.Name(id=self.mp[node.id], ctx=node.ctx), node)
+        return node
+
+
+def renamed(ex, cx_spec, tree):
+    """a clause of the function under verification is read with the new name of a local that was merely renamed"""
+    mp = getattr(ex, 'rename', None)
+    if mp and cx_spec is not None and cx_spec.fi is ex.cur_fi:
+        return _Rename(mp).visit(tree)
+    return tree
+
+
 def eval_clause(ex, st, clause, cx_spec):
-    tree = ast.parse(clause.strip(), mode='eval').body
+    tree = renamed(ex, cx_spec, ast.parse(clause.strip(), mode='eval').body)
     v = ex.pure(st, tree, cx_spec)
     return ex.truth(st, v)
 
@@ -656,7 +674,7 @@ def apply_modifies(ex, st, targets, cx_spec, hint='mod'):
             continue
         content = t.endswith('[*]')
         base = t[:-3] if content else t
-        tree = ast.parse(base, mode='eval').body
+        tree = renamed(ex, cx_spec, ast.parse(base, mode='eval').body)
         if content:
             obj = ex.pure(st, tree, cx_spec)
             if obj.ty.kind == 'opt':
